@@ -39,7 +39,7 @@ REQUIRED_LABELS = ["printed form is accepted again", "print is a fixed point", "
 
 BD_ALPHA = "[]$<01|. "
 MIX_ALPHA = ".|%015 "
-NUM_FORMATS = ("int", "trailing-dot", "plain", "sci", "sci-short")  # besides the canonical float print; the last three are spellings of a float
+NUM_FORMATS = ("int", "trailing-dot", "plain", "sci", "sci-short", "sci-upper")  # besides the canonical float print; the last three are spellings of a float
 
 
 def bounds(tier):
@@ -331,7 +331,7 @@ def templatize(c, text, hole=None):
                     vals.append(0.0)
                 else:
                     n += 1
-                    if fmt in ("plain", "sci", "sci-short") and not ints:
+                    if fmt in ("plain", "sci", "sci-short", "sci-upper") and not ints:
                         # another spelling of the same float: positional decimal / exponent notation
                         v = c.fresh_real(f"n{n}", 1e-6, 1e8)
                         parts.append(Num(v, "float", fmt))
